@@ -96,7 +96,7 @@ fn exec(w: &mut World, op: &Value) -> (String, String) {
             match catch_unwind(AssertUnwindSafe(move || {
                 let pb = ProgressBar::with_draw_target(if len < 0 { None } else { Some(len as u64) }, ProgressDrawTarget::term_like(Box::new(sp)));
                 pb.set_style(style);
-                pb.set_message("m\u{e9}\u{fc}\u{e9}\u{fc}\u{e9}\u{fc}\u{e9}\u{fc}\u{e9}\u{fc}\u{e9}\u{fc}");      // one-column letters of two bytes each: a cut of a truncating field lands inside them
+                pb.set_message("xy\u{e9}\u{fc}\u{e9}\u{fc}\u{e9}\u{fc}\u{e9}\u{fc}\u{e9}\u{fc}\u{e9}\u{fc}");      // one-column letters of two bytes each: a cut of a truncating field lands inside them
                 pb
             })) {
                 Ok(pb) => { w.bar = Some((pb, spy)); ("ok".into(), String::new()) }
